@@ -265,9 +265,17 @@ impl<P: RuntimeProvider> DnsHandle for BufDnsRequestStreamHandle<P> {
 
         let (request, oneshot) = OneshotDnsRequest::oneshot(request);
         let mut sender = self.sender.clone();
-        let try_send = sender.try_send(request).map_err(|_| {
+        let try_send = sender.try_send(request).map_err(|error| {
             debug!("unable to enqueue message");
-            NetError::Busy
+            match error.is_disconnected() {
+                // the background task that drives the connection is gone (the peer closed the
+                // connection): this is a closed connection, not back-pressure
+                true => NetError::from(io::Error::new(
+                    io::ErrorKind::NotConnected,
+                    "connection closed",
+                )),
+                false => NetError::Busy,
+            }
         });
 
         match try_send {
@@ -336,7 +344,14 @@ impl Stream for DnsResponseReceiver {
                     let future = ready!(
                         receiver
                             .poll(cx)
-                            .map_err(|_| NetError::from("receiver was canceled"))
+                            .map_err(|_| {
+                                // the background task went away with the request still queued:
+                                // the connection was closed before the request was sent
+                                NetError::from(io::Error::new(
+                                    io::ErrorKind::ConnectionAborted,
+                                    "connection closed before the request was sent",
+                                ))
+                            })
                     )?;
                     Self::Received(future)
                 }
